@@ -9,6 +9,7 @@ and the Pratt tree on the real parser's outputs."""
 import hashlib
 import json
 import os
+import subprocess
 import re
 from checklib import sh, parse_kv_line
 
@@ -63,7 +64,12 @@ def run(ctx):
         elif line.startswith("case "):
             f = line.split()
             case_str[f[1]] = (gid, ("t:" if f[3] == "T" else "x:") + ("" if f[4] == "-" and f[3] == "T" else f[4]))
-    rc, out = sh("%s < %s" % (driver, ops), timeout=3000)
+    try:
+        # `exec` so that the timeout kills the driver itself, not only the shell
+        rc, out = sh("exec %s < %s" % (driver, ops), timeout=900 if ctx.tier == "quick" else 3000)
+    except subprocess.TimeoutExpired:
+        ctx.oblige("run:model-driver-finished-in-time", False, "the Lean driver did not finish (checker blow-up on some case)")
+        return ctx.finish()
     evals = 0
     distinct = set()
     samples = []
